@@ -21,6 +21,7 @@ func cppDriver(p *dsl.Program) string {
 #include <cstring>
 #include <fstream>
 #include <iostream>
+#include <map>
 #include <sstream>
 #include <string>
 #include <vector>
@@ -127,7 +128,8 @@ static void dumpAny(const codec::BinaryCodec* v, std::vector<std::string>& out);
 		fmt.Fprintf(&b, "  if (name == %q) { auto o = std::make_unique<%s>(); build_%s(tk, *o); return o; }\n", k.Name, k.Name, k.Name)
 	}
 	b.WriteString("  throw std::runtime_error(\"packet \" + name);\n}\n")
-	b.WriteString("static std::unique_ptr<codec::BinaryCodec> newAny(const std::string& name) {\n")
+	b.WriteString("static std::unique_ptr<codec::BinaryCodec> newAny0(const std::string& name);\nstatic bool reuse = false;\nstatic std::map<std::string, std::unique_ptr<codec::BinaryCodec>> lastObj;\nstatic codec::BinaryCodec* newAny(const std::string& name) {\n  auto it = lastObj.find(name);\n  if (reuse && it != lastObj.end()) return it->second.get();\n  lastObj[name] = newAny0(name);\n  return lastObj[name].get();\n}\n")
+	b.WriteString("static std::unique_ptr<codec::BinaryCodec> newAny0(const std::string& name) {\n")
 	for _, k := range p.Packets {
 		fmt.Fprintf(&b, "  if (name == %q) return std::make_unique<%s>();\n", k.Name, k.Name)
 	}
@@ -149,6 +151,7 @@ static std::string handle(const std::string& line) {
   std::string id = parts.size() > 1 ? parts[1] : "-";
   try {
     if (parts[0] == "CKS") { setChecksums(parts[1] == "1"); return "R - ok"; }
+    if (parts[0] == "REUSE") { reuse = parts[1] == "1"; return "R - ok"; }
     if (parts[0] == "ENC") {
       Toks tk; std::istringstream is(parts[2] + " " + (parts.size() > 3 ? parts[3] : "")); std::string w; while (is >> w) tk.t.push_back(w);
       auto o = buildAny(tk); ByteBuf buf; o->encode(buf);
@@ -158,7 +161,7 @@ static std::string handle(const std::string& line) {
     if (parts[0] == "DEC") {
       std::vector<uint8_t> data; if (parts.size() > 3 && parts[3] != "-") data = unhex(parts[3]);
       ByteBuf buf(data); auto o = newAny(parts[2]); o->decode(buf);
-      std::vector<std::string> out; dumpAny(o.get(), out);
+      std::vector<std::string> out; dumpAny(o, out);
       std::string reh; try { ByteBuf re; o->encode(re); reh = hexb(re.data().data(), re.data().size()); if (reh.empty()) reh = "-"; } catch (const std::exception&) { reh = "ERR"; }
       std::string d; for (size_t k = 1; k < out.size(); k++) { if (k > 1) d += " "; d += out[k]; }
       return "R " + id + " ok " + std::to_string(buf.reader_index()) + " " + reh + " | " + d;
